@@ -53,6 +53,10 @@ var selMap = map[string]string{
 
 var selForbidden = map[string]bool{}
 
+// instrumentedPkgs: import paths of the packages being rewritten (channels made there are *verifrt.Chan values;
+// a channel that a call into any other package returns is a real one and gets wrapped, see externalChanCall)
+var instrumentedPkgs = map[string]bool{}
+
 func fatalf(f string, a ...interface{}) {
 	fmt.Fprintf(os.Stderr, "instrument: "+f+"\n", a...)
 	os.Exit(2)
@@ -113,6 +117,9 @@ func main() {
 	pkgs, err := packages.Load(cfg, strings.Split(*pkgsFlag, ",")...)
 	if err != nil {
 		fatalf("load: %v", err)
+	}
+	for _, p := range pkgs {
+		instrumentedPkgs[p.PkgPath] = true
 	}
 	nerr := 0
 	for _, p := range pkgs {
@@ -216,6 +223,41 @@ func (r *rewriter) pkgOf(x ast.Expr) string {
 		return pn.Imported().Path()
 	}
 	return ""
+}
+
+// externalChanCall reports whether n is a call into a package that is not instrumented (and not one of the replaced
+// ones) whose result is a channel that can be received from.
+func (r *rewriter) externalChanCall(n *ast.CallExpr) bool {
+	tv, ok := r.info.Types[n]
+	if !ok || tv.Type == nil {
+		return false
+	}
+	ch, ok := tv.Type.Underlying().(*types.Chan)
+	if !ok || ch.Dir() == types.SendOnly {
+		return false
+	}
+	var obj types.Object
+	switch f := n.Fun.(type) {
+	case *ast.SelectorExpr:
+		if sel, ok := r.info.Selections[f]; ok {
+			obj = sel.Obj()
+		} else {
+			obj = r.info.Uses[f.Sel]
+		}
+	case *ast.Ident:
+		obj = r.info.Uses[f]
+	}
+	if obj == nil || obj.Pkg() == nil {
+		return false
+	}
+	p := obj.Pkg().Path()
+	if instrumentedPkgs[p] || p == "time" || strings.HasPrefix(p, rtPath) {
+		return false
+	}
+	if _, replaced := importMap[p]; replaced {
+		return false
+	}
+	return true
 }
 
 func (r *rewriter) isBuiltin(fun ast.Expr, name string) bool {
@@ -366,6 +408,13 @@ func (r *rewriter) run() bool {
 				n.Values[0].(*ast.CallExpr).Fun.(*ast.SelectorExpr).Sel = ast.NewIdent("Recv2")
 			}
 		case *ast.CallExpr:
+			if r.builtin[n] == "" && r.externalChanCall(n) {
+				// ctx.Done(), a library's notification channel, ...: a real channel from outside the instrumented code.
+				// It is wrapped so that receiving from it (alone or in a select) is a scheduling point like any other.
+				c.Replace(call(rtSel("External"), n))
+				r.needRT, r.changed = true, true
+				return true
+			}
 			switch r.builtin[n] {
 			case "close":
 				c.Replace(method(n.Args[0], "Close"))
